@@ -303,13 +303,17 @@ impl GlobalIndex {
 
     /// Convert the `Arc<Index>` to an Index
     pub fn into_index(self) -> Index {
-        match Arc::try_unwrap(self.index) {
-            Ok(index) => index,
-            Err(arc) => {
-                // Seems index is still in use; this could be due to some threads using it which didn't yet completely shut down.
-                // sleep a bit to let threads using the index shut down, after this index should be available to unwrap
-                sleep(Duration::from_millis(100));
-                Arc::try_unwrap(arc).expect("index still in use")
+        let mut index = self.index;
+        loop {
+            match Arc::try_unwrap(index) {
+                Ok(index) => return index,
+                Err(arc) => {
+                    // Seems index is still in use; this could be due to some threads using it which didn't yet completely shut down.
+                    // sleep a bit to let threads using the index shut down, after this index should be available to unwrap.
+                    // On a loaded machine this can take longer than a fixed grace period, so retry instead of panicking.
+                    sleep(Duration::from_millis(10));
+                    index = arc;
+                }
             }
         }
     }
